@@ -38,7 +38,8 @@ CHECKS = {
             "mutation monitor with oracle-classified single-constraint violations"),
     "C06": ("exploration",
             "For valid defaults the value realised by serde-default, Default impl and builder is read from the running "
-            "compiled code and compared with the schema default; invalid defaults must make ingestion return Err.",
+            "compiled code and compared with the schema default and with what the type's own deserialiser makes of the "
+            "explicitly written default (nested-default filling); invalid defaults must make ingestion return Err.",
             NOTE_ORACLE, "observed-default monitor over compiled output + ingest result monitor"),
     "C07": ("exploration",
             "Containment graph of the generated types is read through Type::details() and checked acyclic by an independent "
@@ -71,7 +72,8 @@ CHECKS = {
             "agreement monitor over compiled conversions"),
     "C12": ("exploration",
             "Every case is rendered in K fresh processes (fresh hash seeds) x P key-order permutations and twice in-process; "
-            "all digests must be equal.", "a 2-element hash-order dependence escapes K runs with probability 2^-(K-1)",
+            "all digests must be equal; a CLI sample and the import_types! macro rebuilt in fresh rustc processes (token streams "
+            "from the hook log) are compared the same way.", "a 2-element hash-order dependence escapes K runs with probability 2^-(K-1)",
             "multi-process output digest comparison"),
     "C13": ("exploration",
             "The full decision table (crate config x policy x semver triples x rename x parameters x use site x malformed "
@@ -101,7 +103,8 @@ CHECKS = {
             "syn facts; rustc as the judge of trait bounds", "API-vs-output monitor + compiled bound assertions"),
     "C18": ("exploration",
             "For every generated struct, builder probes over subsets of set properties are executed and compared with the "
-            "schema's required/default sets and with the type's own deserialiser; bad setter values must name the property; "
+            "schema's required/default sets and with the type's own deserialiser (the builder is blamed when it disagrees with "
+            "both, serde when it rejects what schema and builder accept); bad setter values must name the property; "
             "struct->builder->struct identity.", "compiled output; driver emitted from properties_info()",
             "two-sided behavioural monitor (schema and serde as references)"),
     "C19": ("exploration",
